@@ -60,7 +60,7 @@ func init() {
 			"encoding/json, net/url.ParseQuery, mime, mime/multipart, yaml3 and encoding/csv are trusted: what they make of the body text is an input of the model; YAML texts stay inside the JSON data model (no timestamps, no non-string keys)",
 			"array properties of form bodies carry items; per-property styles only form/spaceDelimited/pipeDelimited on arrays; object-typed properties inside composition members of a form schema, one name declared as integer and as number, the zip decoder and form decoders nested inside multipart parts are outside the model and not generated",
 			"defaults below `not` (the partial mutations of the failing visit stay in the value) and, under a media type without body encoder, defaults at nesting depth ≥ 2 that fire are outside the model and not generated",
-			"where a default decides the verdict (caseNeutral false) the verdict is the one of the completed value (C13): only implementation vs model is compared there",
+			"where a default decides the verdict (caseNeutral false) the oracle is the two-phase reading (completed value) for composition-free schemas; for schemas with compositions only implementation vs model is compared",
 		},
 	})
 }
@@ -657,8 +657,9 @@ func cmpC06(c hx.Case, impl any, reply map[string]any) hx.Verdict {
 			v.Detail += fmt.Sprintf(" decoder failed (%v) but the body encodes %s", idec, canonJ(sdec["v"]))
 		}
 	}
-	// under default-setting the request-side reading of the property decides the verdict only where defaults are
-	// neutral ("applies"); elsewhere the verdict is taken on the completed value (C13's subject): I vs M only
+	// under default-setting the request-side reading of the property decides the verdict where defaults are neutral;
+	// for composition-free schemas whose defaults decide, the driver's oracle is the two-phase reading (the completed
+	// value satisfies the schema); where neither applies (compositions with firing defaults): I vs M only
 	if applies, ok := spec["applies"].(bool); ok && !applies {
 		return v
 	}
@@ -1108,9 +1109,9 @@ func genC06(ctx *hx.Ctx, emit func(hx.Case)) {
 	// (E) default injection (DefaultsSet is installed unless Options.SkipSettingDefaults)
 	genDefaults(ctx, emit)
 	// random stream
-	nr := 6000
+	nr := 10000
 	if ctx.Thorough() {
-		nr = 120000
+		nr = 300000
 	}
 	for i := 0; i < nr; i++ {
 		emit(randCase(r))
